@@ -456,6 +456,48 @@ func init() {
 			w.Case("order/uncleaned-explicit", func(c *C) {
 				expect(c, c.ID, map[string]string{"d/a.yaml": mk(1), "d/b.yaml": mk(2)}, []string{"-i", "./d/b.yaml", "-i", "d//a.yaml"}, 1)
 			})
+			// (3b) several patterns, every file carrying appended attributes (calls, tags, decorators): each file is merged
+			// exactly once, in pattern order
+			w.Case("patterns/appended-attributes", func(c *C) {
+				mkf := func(i int) *Cfg {
+					return &Cfg{Services: []Service{{Name: "s", Calls: []Call{{Method: fmt.Sprintf("M%d", i), Args: []any{i}}}, Tags: []Tag{{Name: fmt.Sprintf("t%d", i)}}}},
+						Decorators: []Decorator{{Tag: fmt.Sprintf("t%d", i), Decorator: fmt.Sprintf("pk.Dec%d", i%3+1), Args: []any{i}}}}
+				}
+				head := &Cfg{Meta: &Meta{Pkg: P("gen"), Imports: []KV{{"pk", "fx/pk"}}}, Services: []Service{{Name: "s", Constructor: P("pk.New")}}}
+				one := &Cfg{Meta: head.Meta, Services: []Service{{Name: "s", Constructor: P("pk.New")}}}
+				for i := 1; i <= 4; i++ {
+					f := mkf(i)
+					one.Services[0].Calls = append(one.Services[0].Calls, f.Services[0].Calls...)
+					one.Services[0].Tags = append(one.Services[0].Tags, f.Services[0].Tags...)
+					one.Decorators = append(one.Decorators, f.Decorators...)
+				}
+				want := w.Build([]File{{"c.yaml", one.YAML()}})
+				forms := [][]string{
+					{"-i", "d/0.yaml", "-i", "d/1.yaml", "-i", "d/2.yaml", "-i", "d/3.yaml", "-i", "d/4.yaml"},
+					{"-i", "d/0.yaml", "-i", "d/[12].yaml", "-i", "d/[34].yaml"},
+					{"-i", "d/[01].yaml", "-i", "d/2.yaml", "-i", "d/3.yaml", "-i", "d/4.yaml"},
+					{"-i", "d/?.yaml"},
+					{"-i", "d/0.yaml", "-i", "d/1.yaml", "-i", "d/[2-4].yaml"},
+				}
+				for fi, args := range forms {
+					w.FreshDir()
+					os.MkdirAll("d", 0o755)
+					os.WriteFile("d/0.yaml", []byte(head.YAML()), 0o644)
+					files := map[string]string{"d/0.yaml": head.YAML()}
+					for i := 1; i <= 4; i++ {
+						os.WriteFile(fmt.Sprintf("d/%d.yaml", i), []byte(mkf(i).YAML()), 0o644)
+						files[fmt.Sprintf("d/%d.yaml", i)] = mkf(i).YAML()
+					}
+					r := Tool(DefaultVersion, DefaultBuildInfo, append(append([]string{}, args...), "-o", "out.go")...)
+					got, _ := os.ReadFile("out.go")
+					c.Distinct("all", fmt.Sprint(c.ID, fi))
+					c.Distinct("nontrivial", fmt.Sprint(c.ID, fi))
+					c.Count("evaluations_extra")
+					if !want.OK() || !r.OK() || string(got) != want.Output {
+						c.Violation("patterns-appended-attributes", fmt.Sprintf("patterns %v: calls / tags / decorators of the files must be appended once each, in pattern order; %s\n%s", args, firstDiff(want.Output, string(got)), strings.Join(ErrorLines(r.Out), "\n")), files, map[string]any{"args": append(append([]string{}, args...), "-o", "out.go")})
+					}
+				}
+			})
 			// (4) algebra on the real input.Merge
 			ins := c09inputs()
 			singles := 0
